@@ -252,6 +252,8 @@ class SrcHarness:
         e_i = env.lookup_env("iterator")
         if e_d is None or e_i is None:
             raise Unsupported("from_iterable_: no `disposed` / `iterator` cells (drift)")
+        from .cells import require_known
+        require_known(A, {"disposed", "iterator"}, uid)
         self.rec(ctx, uid + "/subscribe/iterator-starts-at-the-first-item", isinstance(e_i.vars["iterator"], Opaque)
                  and same(e_i.vars["iterator"].attrs["pos"], IntSV(z3.IntVal(0))) is True and e_d.vars["disposed"] is False)
         # disposing the returned disposable stops the loop and cancels the scheduled action
@@ -484,6 +486,8 @@ class SrcHarness:
         cells = {n: env.lookup_env(n) for n in (["first", "state"] + (["has_result", "result", "time"] if timed else []))}
         if any(v is None for v in cells.values()):
             raise Unsupported(f"{fn}: loop cells {[k for k, v in cells.items() if v is None]} not found (drift)")
+        from .cells import require_known
+        require_known(A, set(cells), uid)
         self.rec(ctx, uid + "/subscribe/loop-starts-at-the-initial-state", cells["first"].vars["first"] is True and same(cells["state"].vars["state"], init) is True
                  and (not timed or cells["has_result"].vars["has_result"] is False))
         # an arbitrary tick
